@@ -986,5 +986,10 @@ func TestC27(t *testing.T) {
 	c27Sequences(t, r, rng)
 	c27Concurrent(t, r, rng)
 	c27Advertised(t, r, rng)
+	// (d) the premium a real responder node writes into its agreements, for every (asset, direction) and every layer
+	parallelDo(r.N(3, 60), 8, func(i int) { runResponderPremium(r, "C27|agreement-premium-differs", r.Seed*439+int64(i)+1) })
+	if a, _ := r.Extra["responder_premium_agreements"].(int); a < 20 {
+		r.Inconclusive(fmt.Sprintf("only %d responder agreements judged", a))
+	}
 	r.Require(r.Evaluations > 10000, "too few evaluations")
 }
